@@ -5,6 +5,8 @@ cd "$(dirname "$0")"
 V="$(pwd)"
 export GOFLAGS=-mod=mod GOPROXY=off GOSUMDB=off GOTOOLCHAIN=local
 mkdir -p bin .work evidence replays
+echo "== translation of the Go source (coq/Src/SrcWire.v follows /repo)"
+python3 -c "import sys; sys.path.insert(0, 'lib'); import vcheck; print(vcheck.regen_src())"
 echo "== Coq development (full .vo build)"
 (cd coq && coq_makefile -f _CoqProject -o Makefile >/dev/null && timeout 3000 make -j16 2>&1 | tail -3)
 echo "== extraction + model runner"
